@@ -69,6 +69,8 @@ type checkCfg struct {
 	kfDomains    []string // domains with an own generator, run as separate batches
 	env          []string
 	crashIsMine  bool // any hard crash during the run is a violation of this property
+	binName      string
+	buildFlags   []string
 }
 
 var checkCfgs = map[string]checkCfg{
@@ -85,10 +87,10 @@ var checkCfgs = map[string]checkCfg{
 	"C13": {engine: "world", quickRuns: 16000, thoroughRuns: 400000},
 	"C14": {engine: "world", quickRuns: 8000, thoroughRuns: 200000},
 	"C15": {engine: "world", quickRuns: 8000, thoroughRuns: 200000},
-	"C18": {engine: "world", quickRuns: 3000, thoroughRuns: 60000, env: []string{"GODEBUG=clobberfree=1"}, crashIsMine: true},
+	"C18": {engine: "world", quickRuns: 3000, thoroughRuns: 60000, env: []string{"GODEBUG=clobberfree=1"}, crashIsMine: true, binName: "sim-checkptr", buildFlags: []string{"-gcflags=all=-d=checkptr=2"}},
 	"C10": {engine: "node", quickRuns: 4000, thoroughRuns: 120000},
-	"C16": {engine: "race", quickRuns: 400, thoroughRuns: 6000},
-	"C17": {engine: "heap"},
+	"C16": {engine: "race", quickRuns: 320, thoroughRuns: 30000},
+	"C17": {engine: "heap", quickRuns: 144, thoroughRuns: 576},
 }
 
 type checker struct {
@@ -107,6 +109,7 @@ type checker struct {
 	broken  bool
 	notes   []string
 	kfPrinted map[string]bool
+	seenSig   map[string]bool
 }
 
 func (c *checker) knownIDs(domain string) string {
@@ -508,6 +511,16 @@ func simplifyStep(t *Trace, i int) []*Trace {
 	if s.T < 0 || s.T >= len(t.Trees) {
 		return nil
 	}
+	if t.Mode == "heap" {
+		for _, n := range []int{s.N / 8, s.N / 2} {
+			if n >= 1000 {
+				c := cloneTrace(t)
+				c.Steps[i].N = n
+				out = append(out, c)
+			}
+		}
+		return out
+	}
 	kind := t.Trees[s.T].Key.Kind
 	with := func(ns Step) {
 		c := cloneTrace(t)
@@ -636,7 +649,10 @@ func (c *checker) handleViolations(bin string, br *batchResult, extraEnv []strin
 		}
 		return cands[i].run < cands[j].run
 	})
-	seen := map[string]bool{}
+	seen := c.seenSig
+	if br.domain != "main" {
+		seen = map[string]bool{}
+	}
 	reported := 0
 	o := genOptsFor(c.tier, br.domain, runtime.GOARCH)
 	for _, cd := range cands {
@@ -673,19 +689,34 @@ func (c *checker) handleViolations(bin string, br *batchResult, extraEnv []strin
 		c.logf("violation in run %d: %s — minimising (%d steps)", cd.run, want, len(tr.Steps))
 		var test func(*Trace) *Violation
 		if want.Class == "crash" || len(extraEnv) > 0 {
+			attempts := 1
+			if want.Class == "race" {
+				attempts = 3 // the detector keeps a bounded access history: a report can be missed, never invented
+			}
 			test = func(t *Trace) *Violation {
-				v := c.execChild(bin, t, extraEnv, 2*time.Minute)
-				if v.Violation != nil {
-					return v.Violation
+				var last *Violation
+				for a := 0; a < attempts; a++ {
+					v := c.execChild(bin, t, extraEnv, 2*time.Minute)
+					last = v.Violation
+					if last == nil {
+						last = c.crashViolation(t, v)
+					}
+					if sameFailure(last, want) {
+						return last
+					}
 				}
-				return c.crashViolation(t, v)
+				return last
 			}
 		} else {
 			kn := parseKnown(c.knownIDs(""))
 			test = func(t *Trace) *Violation { return newExec(t, kn).Run() }
 		}
 		runtime.GOMAXPROCS(1)
-		small := minimise(tr, want, test, 90*time.Second)
+		mbudget := 90 * time.Second
+		if want.Class == "race" {
+			mbudget = 45 * time.Second
+		}
+		small := minimise(tr, want, test, mbudget)
 		runtime.GOMAXPROCS(runtime.NumCPU())
 		final := test(small)
 		if !sameFailure(final, want) {
@@ -699,10 +730,26 @@ func (c *checker) handleViolations(bin string, br *batchResult, extraEnv []strin
 		}
 		writeJSON(rp, rf)
 		// replay the minimised file once in a fresh process: it must fail the same way
-		rv := c.execFile(bin, rp, extraEnv, 5*time.Minute)
-		got := rv.Violation
-		if got == nil {
-			got = c.crashViolation(small, rv)
+		var got *Violation
+		tries := 1
+		if final.Class == "race" {
+			tries = 6
+		}
+		for a := 0; a < tries && !sameFailure(got, final); a++ {
+			rv := c.execFile(bin, rp, extraEnv, 5*time.Minute)
+			got = rv.Violation
+			if got == nil {
+				got = c.crashViolation(small, rv)
+			}
+		}
+		if !sameFailure(got, final) && final.Class == "race" {
+			// fall back to the unminimised trace, which a fresh process already reproduced once
+			rf.Trace, rf.Note = tr, "not minimised: the minimised schedule did not reproduce reliably under the race detector"
+			writeJSON(rp, rf)
+			for a := 0; a < tries && !sameFailure(got, final); a++ {
+				rv := c.execFile(bin, rp, extraEnv, 5*time.Minute)
+				got = rv.Violation
+			}
 		}
 		if !sameFailure(got, final) {
 			c.broken = true
@@ -731,6 +778,13 @@ func (c *checker) handleViolations(bin string, br *batchResult, extraEnv []strin
 
 func (c *checker) worldCheck() (map[string]any, int, int) {
 	bin := c.self
+	if c.cfg.binName != "" {
+		b, ok := c.build(c.cfg.binName, c.cfg.buildFlags, nil)
+		if !ok {
+			return nil, 0, 0
+		}
+		bin = b
+	}
 	env := c.cfg.env
 	N := c.runsFor()
 	cov := map[string]any{}
@@ -850,7 +904,7 @@ func checkMain(args []string) int {
 		return 2
 	}
 	self, _ := os.Executable()
-	c := &checker{prop: prop, cfg: cfg, self: self, start: time.Now(), known: loadKnownFindings(), kfPrinted: map[string]bool{}}
+	c := &checker{prop: prop, cfg: cfg, self: self, start: time.Now(), known: loadKnownFindings(), kfPrinted: map[string]bool{}, seenSig: map[string]bool{}}
 	c.seed = envU64("VERIF_SEED", 1)
 	c.workers = envInt("VERIF_WORKERS", runtime.NumCPU())
 	c.workDir = filepath.Join(rootDir, ".build", "run-"+prop)
@@ -884,10 +938,8 @@ func checkMain(args []string) int {
 	var cov map[string]any
 	var evals, nontriv int
 	switch cfg.engine {
-	case "world", "node":
+	case "world", "node", "heap":
 		cov, evals, nontriv = c.worldCheck()
-	case "heap":
-		cov, evals, nontriv = c.heapCheck()
 	case "race":
 		cov, evals, nontriv = c.raceCheck()
 	}
@@ -949,12 +1001,33 @@ func (c *checker) replay(path string) int {
 		return 2
 	}
 	switch c.cfg.engine {
-	case "heap":
-		return c.heapReplay(path)
-	case "race":
-		return c.raceReplay(path, &rf)
 	}
-	cv := c.execFile(c.self, path, c.cfg.env, 10*time.Minute)
+	bin := c.self
+	if c.cfg.binName != "" {
+		b, ok := c.build(c.cfg.binName, c.cfg.buildFlags, nil)
+		if !ok {
+			return 2
+		}
+		bin = b
+	}
+	env := c.cfg.env
+	tries := 1
+	if c.cfg.engine == "race" {
+		b, ok := c.build("sim-race", []string{"-race"}, nil)
+		if !ok {
+			return 2
+		}
+		bin = b
+		env = []string{"VERIF_PROCS=4", "GORACE=halt_on_error=0 log_path=" + filepath.Join(c.workDir, "race-replay")}
+		tries = 6
+	}
+	var cv *childVerdict
+	for a := 0; a < tries; a++ {
+		cv = c.execFile(bin, path, env, 10*time.Minute)
+		if cv.Violation != nil || cv.crashed {
+			break
+		}
+	}
 	got := cv.Violation
 	if got == nil {
 		got = c.crashViolation(rf.Trace, cv)
@@ -966,4 +1039,107 @@ func (c *checker) replay(path string) int {
 	}
 	fmt.Println("replay: no violation")
 	return 0
+}
+
+// ---- C16 ----
+
+func (c *checker) raceCheck() (map[string]any, int, int) {
+	bin, ok := c.build("sim-race", []string{"-race"}, nil)
+	if !ok {
+		return nil, 0, 0
+	}
+	N := c.runsFor()
+	cov := map[string]any{}
+	type pb struct {
+		procs int
+		runs  int
+	}
+	plan := []pb{{1, N}, {4, max(20, N/4)}, {16, max(20, N/8)}}
+	var first *batchResult
+	byProcs := map[string]any{}
+	total := 0
+	allOps, allEvents, allProbes, allSkipped, allKinds := map[string]int{}, map[string]int{}, map[string]int{}, map[string]int{}, map[string]int{}
+	savedWorkers := c.workers
+	for _, p := range plan {
+		env := []string{fmt.Sprintf("VERIF_PROCS=%d", p.procs), "GORACE=halt_on_error=0 log_path=" + filepath.Join(c.workDir, fmt.Sprintf("race-p%d", p.procs))}
+		c.workers = max(2, savedWorkers/min(p.procs, 4))
+		savedBudget := c.budget
+		if p.procs > 1 {
+			c.budget = savedBudget / 2
+		}
+		br := c.runBatch(bin, "main", p.runs, env)
+		c.budget = savedBudget
+		// a race in the harness itself is my defect, never the library's
+		for i := range br.records {
+			if v := br.records[i].Violation; v != nil && v.Class == "harness-race" {
+				c.broken = true
+				c.notes = append(c.notes, fmt.Sprintf("run %d (GOMAXPROCS=%d): race report without a library frame: %s", br.records[i].Run, p.procs, v.Detail))
+				br.records[i].Violation = nil
+			}
+		}
+		c.handleViolations(bin, br, env)
+		total += br.runs
+		addMap(allOps, br.ops)
+		addMap(allEvents, br.events)
+		addMap(allProbes, br.probes)
+		addMap(allSkipped, br.skipped)
+		addMap(allKinds, br.kinds)
+		byProcs[fmt.Sprint(p.procs)] = map[string]any{"runs": br.runs, "steps": br.steps, "wall_s": br.wall.Seconds()}
+		if first == nil {
+			first = br
+			continue
+		}
+		// built-in determinism check: the same seeds give the same transcripts at every processor count
+		tx := map[int]uint64{}
+		for _, r := range first.records {
+			tx[r.Run] = r.Transcript
+		}
+		cmp := 0
+		for _, r := range br.records {
+			if want, ok := tx[r.Run]; ok && r.Violation == nil {
+				cmp++
+				if want != r.Transcript {
+					c.broken = true
+					c.notes = append(c.notes, fmt.Sprintf("run %d: transcript differs between GOMAXPROCS=1 and GOMAXPROCS=%d", r.Run, p.procs))
+					break
+				}
+			}
+		}
+		allProbes[fmt.Sprintf("transcripts_compared_procs1_vs_procs%d", p.procs)] = cmp
+	}
+	c.workers = savedWorkers
+	distinct := map[uint64]bool{}
+	nontrivial := 0
+	for _, r := range first.records {
+		if !distinct[r.TraceHash] {
+			distinct[r.TraceHash] = true
+			if r.NonTrivial {
+				nontrivial++
+			}
+		}
+	}
+	cov["evaluations"] = total
+	cov["distinct_nontrivial"] = nontrivial
+	cov["rule"] = "one evaluation = one seeded run under the race detector: G real goroutines execute an explicit trace strictly one at a time in a baton order the detector cannot see (W1: private trees per goroutine through the shared node pool; W2: one shared quiescent tree queried by all); distinct_nontrivial counts unique traces (GOMAXPROCS=1 batch) in which at least one goroutine changed a tree"
+	var samples []any
+	for _, s := range first.samples {
+		samples = append(samples, s)
+	}
+	cov["samples"] = samples
+	cov["steps_logical_time"] = first.steps
+	cov["runs_per_hour"] = int(float64(first.runs) / first.wall.Seconds() * 3600)
+	cov["by_gomaxprocs"] = byProcs
+	cov["operations"] = allOps
+	cov["environment_events_fired"] = allEvents
+	cov["probes"] = allProbes
+	cov["steps_skipped_outside_domain"] = allSkipped
+	cov["tree_instantiations"] = allKinds
+	cov["race_build"] = true
+	cov["statement_points"] = false
+	cov["real_vs_stub"] = map[string]any{
+		"real": []string{"all go-art code incl. amd64 assembly", "sync.Pool", "goroutines (real, one runnable at a time)", "ThreadSanitizer runtime"},
+		"stub": []string{},
+		"simulated": []string{"the choice of which goroutine runs next (baton order from the trace)"},
+	}
+	return cov, total, nontrivial
 }
